@@ -120,6 +120,9 @@ def model_depth2() -> list[str]:
         "Tuple[A] | Tuple[A, B]", "Co[Literal[1] | Literal[2]]", "Tuple[Literal[1], Literal[b'a']]",
         "Callable[[int], Literal[1]]", "Callable[[Literal[1]], int]", "Co[Tuple[A, B]]", "Cn[Tuple[A, B]]",
         "Co[Tuple[B, ...]]", "Sequence[Sequence[B]]", "Type[Co[B]]", "Type[Inv[A]]",
+        # wrappers around the F25 cell (meet of contravariant generics over Type[...] / Callable) and, with NT, F23
+        "Callable[[Cn[Callable[[], A]]], A]", "Callable[[Cn[Type[A]]], A]", "Tuple[Cn[Callable[[], A]]]",
+        "Tuple[Cn[Type[A]]]", "Co[Cn[Type[A]]]", "Co[Cn[Callable[[], A]]]", "Co[Tuple[B, A]]", "Tuple[Tuple[B, A], A]",
     ]
 
 
@@ -132,7 +135,7 @@ EXTRA = [
     "Tuple[A, Unpack[Tuple[B, ...]]]", "Tuple[Unpack[Tuple[A, ...]], B]", "Tuple[A, Unpack[Tuple[A, ...]], B]",
     "Tuple[bool, int]", "Tuple[int, int]", "Co[float]", "Co[bool]", "Inv[int]", "Inv[float]", "Cn[float]",
     "Callable[[float], int]", "Callable[[int], float]", "Callable[[P], A]", "Tuple[P, PI]", "Co[P]", "Co[PI]",
-    "NT | None", "TD | TD2", "Type[PI]", "Sequence[float]", "Tuple[float, ...]", "Co[NT]", "Cn[NT]",
+    "NT | None", "Tuple[NT, A]", "Callable[[], NT]", "TD | TD2", "Type[PI]", "Sequence[float]", "Tuple[float, ...]", "Co[NT]", "Cn[NT]",
 ]
 EXTRA_FUNCS = ["f_opt", "f_star", "f_kw", "f_kwopt", "f_star2", "f_all", "f_named", "f_named2"]
 
